@@ -21,6 +21,11 @@ func init() {
 			{"KIND-TABLES", ruleKindTables},
 			{"ORDER-AGREEMENT", ruleOrderAgreement},
 			{"INDEX-UPDATE-TABLE", ruleIndexUpdateTable},
+			{"INDEX-COND-CONJUNCTIVE", ruleIndexCondConjunctive},
+			{"IN-VALUES-DISTINCT", ruleInValuesDistinct},
+			{"RECURSION-ARGS", func(c *eng.Ctx) {
+				ruleRecursionArgs(c, "RECURSION-ARGS", []string{"internal/planner/...", "internal/db/...", "internal/connor/...", "client/..."}, 3)
+			}},
 			{"ERRFLOW", func(c *eng.Ctx) {
 				ruleErrFlowCone(c, "ERRFLOW", []string{
 					"internal/db.(*collection).indexNewDoc", "internal/db.(*collection).updateIndexedDoc",
